@@ -525,7 +525,8 @@ theorem restart_same (s : State) (hc : Coherent s) (ho : s.orphans = []) :
       intro j
       rw [rc.alloc j]
       have hl : Tbl.get (listed (restartBase s)) j = Tbl.get s.alloc j := by
-        unfold listed restartBase
+        rw [listed_eq]
+        unfold restartBase
         dsimp only
         rw [ho, List.append_nil]
         exact hc.agree j
